@@ -25,8 +25,12 @@ Variable teqb : T -> T -> bool.     (* PartialEq *)
 Definition is_empty (r : range T) : bool :=
   match r_inner r with [] => true | _ => false end.
 
-(* width()/height(): u32 subtraction; on every state reachable from the constructors
-   end >= start componentwise, so the truncated N subtraction coincides with Rust's. *)
+(* width()/height(): (end - start + 1) as usize, computed in u32.  On every state reachable from
+   the constructors end >= start componentwise, so the truncated N subtraction coincides with
+   Rust's.  MODELLING ASSUMPTION (Range_spec.fits32): no range has 2^32 rows or 2^32 columns; on
+   such a range (at least 2^32 cells allocated) the "+ 1" overflows u32 in the real code, which
+   these two total functions do not show.  Every theorem that goes through width()/height()
+   states the bound it needs. *)
 Definition width (r : range T) : N :=
   if is_empty r then 0 else snd (r_end r) - snd (r_start r) + 1.
 Definition height (r : range T) : N :=
@@ -39,41 +43,69 @@ Definition end_ (r : range T) : option pos := if is_empty r then None else Some 
 Definition pos_le_lex (a b : pos) : bool :=
   (fst a <? fst b) || ((fst a =? fst b) && (snd a <=? snd b)).
 
-(* Range::new — assert!(start <= end) (lexicographic), then u32 arithmetic for the size *)
+(* usize is 64 bits on the harness target: usize::MAX = U64MAX *)
+Definition sat_mul_usize (a b : N) : N := N.min (a * b) U64MAX.
+
+(* Range::new — assert!(start <= end) (lexicographic); the two differences are u32 subtractions
+   (overflow = panic: reached when start.0 < end.0 and start.1 > end.1); since 19d4f5b the number
+   of cells is ((end.0 - start.0) as usize + 1) * ((end.1 - start.1) as usize + 1): the "+ 1"
+   cannot overflow a 64-bit usize, the product overflows exactly for 2^32 x 2^32 cells.
+   The allocation vec![default; n] itself is outside the model ([requested_new] is its size). *)
 Definition new (s e : pos) : outcome (range T) :=
   if negb (pos_le_lex s e) then Panic else
   do h0 <- sub32 (fst e) (fst s);
-  do h <- add32 h0 1;
   do w0 <- sub32 (snd e) (snd s);
-  do w <- add32 w0 1;
-  do n <- mul32 h w;
+  let n := (h0 + 1) * (w0 + 1) in
+  if U64MAX <? n then Panic else
   Ok (mkRange s e (repeat d (N.to_nat n))).
+
+(* number of cells Range::new asks the allocator for (when it does not panic before) *)
+Definition requested_new (s e : pos) : N := (fst e - fst s + 1) * (snd e - snd s + 1).
 
 Definition empty : range T := mkRange (0, 0) (0, 0) [].
 
-(* Range::from_sparse *)
+(* Range::from_sparse (as of 3140dd1): all four bounds are running min / max over the cells,
+   starting from u32::MAX / 0; cols and rows are (end - start) as usize + 1 (no u32 addition);
+   len = cols.saturating_mul(rows); every cell goes to row.saturating_mul(cols) + col when that
+   index exists (v.get_mut), and is dropped silently otherwise.  For u32 coordinates the usize
+   addition row * cols + col is below 2^64, so it is not a guarded step.  The allocation of
+   [len] cells is outside the model: [requested_from_sparse] is its size. *)
+Definition sparse_bounds (cells : list (pos * T)) : pos * pos :=
+  let row_start := fold_left (fun m c => if fst (fst c) <? m then fst (fst c) else m) cells U32MAX in
+  let row_end := fold_left (fun m c => if m <? fst (fst c) then fst (fst c) else m) cells 0 in
+  let col_start := fold_left (fun m c => if snd (fst c) <? m then snd (fst c) else m) cells U32MAX in
+  let col_end := fold_left (fun m c => if m <? snd (fst c) then snd (fst c) else m) cells 0 in
+  ((row_start, col_start), (row_end, col_end)).
+
 Definition from_sparse (cells : list (pos * T)) : outcome (range T) :=
   match cells with
   | [] => Ok empty
-  | c0 :: _ =>
-    let row_start := fst (fst c0) in
-    let row_end := fst (fst (last cells c0)) in
-    let col_start := fold_left (fun m c => if snd (fst c) <? m then snd (fst c) else m) cells U32MAX in
-    let col_end := fold_left (fun m c => if m <? snd (fst c) then snd (fst c) else m) cells 0 in
+  | _ :: _ =>
+    let '((row_start, col_start), (row_end, col_end)) := sparse_bounds cells in
     do c0' <- sub32 col_end col_start;
-    do cols <- add32 c0' 1;
+    let cols := c0' + 1 in
     do r0' <- sub32 row_end row_start;
-    do rows <- add32 r0' 1;
-    let len := cols * rows in
+    let rows := r0' + 1 in
+    let len := sat_mul_usize cols rows in
     let v0 := repeat d (N.to_nat len) in
     do v <- fold_left (fun (acc : outcome (list T)) c =>
               do v <- acc;
               do row <- sub32 (fst (fst c)) row_start;
               do col <- sub32 (snd (fst c)) col_start;
-              let idx := row * cols + col in
+              let idx := sat_mul_usize row cols + col in
               if idx <? len then Ok (list_set v (N.to_nat idx) (snd c)) else Ok v)
             cells (Ok v0);
     Ok (mkRange (row_start, col_start) (row_end, col_end) v)
+  end.
+
+(* number of cells from_sparse asks the allocator for: the area of the bounding box of the
+   cells, whatever their number (two cells suffice for any area up to 2^64 - 1) *)
+Definition requested_from_sparse (cells : list (pos * T)) : N :=
+  match cells with
+  | [] => 0
+  | _ :: _ =>
+    let '((row_start, col_start), (row_end, col_end)) := sparse_bounds cells in
+    sat_mul_usize (col_end - col_start + 1) (row_end - row_start + 1)
   end.
 
 (* Range::get (relative) *)
